@@ -715,6 +715,22 @@ def parse_version(version_declarations: T.List[T.Dict], context: ParseContext):
         return base_version
 
 
+def check_no_recursive_aliases(data, filename: str, ancestors=(), finished=None):
+    """YAML aliases can make a structure contain itself. Recipes must be trees."""
+    finished = set() if finished is None else finished
+    if not isinstance(data, (dict, list)) or id(data) in finished:
+        return
+    if id(data) in ancestors:
+        raise exc.DataGenYamlSyntaxError(
+            "YAML alias refers to a structure that contains it (recursive alias)",
+            filename,
+        )
+    children = data.values() if isinstance(data, dict) else data
+    for child in children:
+        check_no_recursive_aliases(child, filename, ancestors + (id(data),), finished)
+    finished.add(id(data))
+
+
 def parse_file(stream: IO[str], context: ParseContext) -> List[Dict]:
     stream_name = getattr(stream, "name", None)
     if stream_name:
@@ -735,6 +751,7 @@ def parse_file(stream: IO[str], context: ParseContext) -> List[Dict]:
         # PyYAML's constructors raise plain ValueErrors, e.g. for the date 2020-13-45
         raise exc.DataGenYamlSyntaxError(str(y), str(path))
     context.line_numbers.update(line_numbers)
+    check_no_recursive_aliases(data, str(path))
 
     if not isinstance(data, list):
         raise exc.DataGenSyntaxError(
